@@ -1400,3 +1400,42 @@ func (w *World) typeComps(e *Enc, from *types.Package, name string) []string {
 func (w *World) otherProp(tag string) bool {
 	return tag != "" && w.curProp != "" && tag != w.curProp
 }
+
+// goEvent: a go statement is an event named "go" for the call-site clauses of the function under contract
+// (`assert before go: ..`, `ghostset after go: ..`). The spawned goroutine itself is not modelled: this
+// states what holds in the spawning thread at the moment of the spawn.
+func (in *Inst) goEvent(x *ssa.Go, st *State) {
+	if st.reach == "false" {
+		return
+	}
+	var cons []*Contract
+	if in.con != nil {
+		cons = append(cons, in.con)
+	}
+	if top := in.e.top; top != nil && top != in && top.con != nil && top.con != in.con {
+		cons = append(cons, top.con)
+	}
+	for _, con := range cons {
+		for i, ca := range con.Asserts {
+			if ca.Callee != "go" || ca.After || in.e.W.otherProp(ca.Clause.Prop) {
+				continue
+			}
+			env := in.newEnv(st)
+			env.atBlock = x.Block()
+			env.atIdx = instrIndex(x)
+			t := in.specBool(ca.Clause.Expr, env)
+			o := in.e.oblige("assert", fmt.Sprintf("before:go/%d", i), x.Pos(), st.reach, t)
+			o.Top = true
+			o.Prop = ca.Clause.Prop
+		}
+		for _, gu := range con.Ghosts {
+			if gu.Callee != "go" || gu.Before {
+				continue
+			}
+			env := in.newEnv(st)
+			env.atBlock = x.Block()
+			env.atIdx = instrIndex(x)
+			in.ghostAssign(gu, env, env.eval(gu.Expr), st)
+		}
+	}
+}
